@@ -194,6 +194,66 @@ def nearest_no_alpha(rep, prog, rule):
             rep.ok(rule, name, f.loc, "%d functions reachable, none touches alpha" % len(seen))
 
 
+def supersampling_alpha(rep, prog, rule):
+    rep.rule(rule, "resample_super_sampling hands its destination only to resample_convolution with its own "
+             "use_alpha flag (the premultiply / divide pipeline lives there): any other call that receives "
+             "dst_view - a nearest-neighbour or copy shortcut - writes the result without the alpha step "
+             "unless it is guarded by use_alpha being false")
+    fs = [f for f in prog.fns.values() if f.name.endswith("Resizer::resample_super_sampling")]
+    if len(fs) != 1:
+        rep.unk(rule, "resample_super_sampling|anchor", "", "%d candidates" % len(fs))
+        return
+    f = fs[0]
+    rep.touch(f)
+    sym = Sym(f)
+    pd = f.param_index("dst_view")
+    pa = f.param_index("use_alpha")
+    if pd is None or pa is None:
+        rep.unk(rule, "resample_super_sampling|params", f.loc, "dst_view / use_alpha parameters not found")
+        return
+    dst = ("param", pd, "dst_view")
+    ua = ("param", pa, "use_alpha")
+    n = 0
+
+    def mentions(e, a):
+        if e == a:
+            return True
+        return isinstance(e, tuple) and any(mentions(x, a) for x in e if isinstance(x, tuple))
+    for c in f.calls():
+        args = [sym.operand(a, (c.bb, "term")) for a in c.args]
+        def is_view(a):
+            for _ in range(6):
+                if isinstance(a, tuple) and a and a[0] in ("cast", "ref", "deref", "reborrow"):
+                    a = a[2] if a[0] == "cast" else a[1]
+                else:
+                    break
+            return a == dst
+        if not any(is_view(a) for a in args):
+            continue
+        nm = c.method or c.name.rsplit("::", 1)[-1]
+        if nm in ("width", "height", "deref", "deref_mut", "pixel_type"):
+            continue
+        n += 1
+        key = "resample_super_sampling|%s" % nm
+        if nm == "resample_convolution":
+            if args and args[-1] == ua:
+                rep.ok(rule, key + "|%d" % n, c.at, "destination written by resample_convolution(.., use_alpha)")
+            else:
+                rep.bad(rule, key + "|flag", c.at, "resample_convolution is called with %s instead of the "
+                        "caller's use_alpha" % (fmt(args[-1]) if args else "?"))
+            continue
+        facts = sym.facts_at(c.bb)
+        if any((cond == ua and val is False) or
+               (cond[0] == "un" and cond[1] == "Not" and cond[2] == ua and val is True) for cond, val in facts):
+            rep.ok(rule, key + "|no-alpha", c.at, "%s writes the destination only when use_alpha is false" % nm)
+        else:
+            rep.bad(rule, key + "|alpha-skipped", c.at,
+                    "resample_super_sampling passes its destination to %s: on that path the image is "
+                    "written without premultiplying / dividing by alpha although use_alpha may be set "
+                    "(transparent pixels keep their hidden colour)" % nm)
+    rep.floor(rule, "calls that receive the destination of resample_super_sampling", n, 2)
+
+
 def run(rep, tier):
     cfgs = ["x86"] if tier == "quick" else ["x86", "x86-rayon", "arm", "wasm"]
     for cfg, prog in programs(cfgs):
@@ -203,6 +263,7 @@ def run(rep, tier):
         rep.call(alpha_rules.alpha_set, rep, prog, "C07.alpha-set")
         rep.call(simd_rules.lane_bypass, rep, prog, "C07.lane-bypass")
         rep.call(alpha_rules.zero_guard, rep, prog, "C07.zero-guard")
+        rep.call(supersampling_alpha, rep, prog, "C07.supersampling-alpha")
         from . import c09
         rep.call(c09.sizing, rep, prog, "C07.premultiply-whole")
         rep.call(c09.write_before_read, rep, prog, "C07.premultiply-before-read")
